@@ -108,14 +108,14 @@ var Mutants = []Mutant{
 	{ID: "linecap-no-push", Props: []string{"C19"}, Rule: "R-SVG", File: "pkg/cli/svg/runtime.go", Find: "func (rt *GraphicsPlatform) Linecap(str string) {\n\trt.Push()\n", Replace: "func (rt *GraphicsPlatform) Linecap(str string) {\n", Expect: "svg.Linecap#push-first", Describe: "linecap changes the pen of shapes already drawn"},
 	{ID: "line-y-transformx", Props: []string{"C19"}, Rule: "R-SVG", File: "pkg/cli/svg/runtime.go", Find: "func (rt *GraphicsPlatform) Line(x, y float64) {\n\tx = rt.transformX(x)\n\ty = rt.transformY(y)", Replace: "func (rt *GraphicsPlatform) Line(x, y float64) {\n\tx = rt.transformX(x)\n\ty = rt.transformX(y)", Expect: "svg.Line#coord:y", Describe: "line end points are not flipped"},
 	{ID: "circle-no-append", Props: []string{"C19"}, Rule: "R-SVG", File: "pkg/cli/svg/runtime.go", Find: "\tcircle := Circle{CX: rt.x, CY: rt.y, R: radius}\n\trt.elements = append(rt.elements, &circle)", Replace: "\tcircle := Circle{CX: rt.x, CY: rt.y, R: radius}\n\tif radius > 0 {\n\t\trt.elements = append(rt.elements, &circle)\n\t}", Expect: "svg.Circle#append-once", Describe: "circle 0 draws nothing"},
-	{ID: "rect-y-not-min", Props: []string{"C19"}, Rule: "R-SVG", File: "pkg/cli/svg/runtime.go", Find: "\t\tY:      min(y, rt.y),", Replace: "\t\tY:      rt.y,", Expect: "svg.Rect#xy-symmetry", Describe: "rect with negative height misplaced"},
+	{ID: "rect-y-not-min", Props: []string{"C19"}, Rule: "R-SVG", File: "pkg/cli/svg/runtime.go", Find: "\t\tY:      min(y, rt.y),", Replace: "\t\tY:      max(y, rt.y),", Expect: "svg.Rect#xy-symmetry", Describe: "rect with negative height misplaced"},
 	{ID: "text-innerxml", Props: []string{"C19"}, Rule: "R-SVG", File: "pkg/cli/svg/svg.go", Find: "`xml:\",chardata\"`", Replace: "`xml:\",innerxml\"`", Expect: "svg.Text.Value#xml-tag", Describe: "text is written as raw XML"},
 	{ID: "gridn-unchecked", Props: []string{"C19"}, Rule: "R-SVG", File: "pkg/evaluator/builtin.go", Find: "\t\tif !(unit.V > 0) {\n\t\t\treturn nil, fmt.Errorf(`%w: \"gridn\" unit must be greater than 0, found %v`, ErrBadArguments, unit.V)\n\t\t}\n", Replace: "", Expect: "gridn→svg.Gridn#step>0", Describe: "gridn 0 loops forever"},
 	{ID: "push-ignores-own-attr", Props: []string{"C19"}, Rule: "R-SVG", File: "pkg/cli/svg/runtime.go", Find: "if len(rt.elements) == 1 && !(rt.attr != defaultAttr && hasOwnAttr(rt.elements[0])) {", Replace: "if len(rt.elements) == 1 {", Expect: "svg.Push#own-attr", Describe: "pen colour overwrites clear's colour"},
 	// C20
 	{ID: "open-error-ignored", Props: []string{"C20"}, Rule: "R-CRYPTO", File: "learn/pkg/learn/encrypt.go", Find: "\tplaintext, err := gcm.Open(nil, zeroNonce, aesCiphertext, nil)\n\tif err != nil {\n\t\treturn nil, err\n\t}\n\treturn plaintext, nil", Replace: "\tplaintext, _ := gcm.Open(nil, zeroNonce, aesCiphertext, nil)\n\treturn plaintext, nil", Expect: "hybridDecrypt#error", Describe: "authentication failure ignored"},
 	{ID: "envelope-length-unchecked", Props: []string{"C20"}, Rule: "R-CRYPTO", File: "learn/pkg/learn/encrypt.go", Find: "\tif len(ciphertext) < rsaLen+3 {\n\t\treturn nil, ErrSealedTooShort\n\t}\n", Replace: "", Expect: "hybridDecrypt#slice", Describe: "truncated sealed value crashes"},
-	{ID: "verify-one-sided", Props: []string{"C20"}, Rule: "R-CRYPTO", File: "learn/pkg/learn/question.go", Find: "\t\tif !correctByIndex[i] && generated == output {\n", Replace: "\t\tif false && !correctByIndex[i] && generated == output {\n", Expect: "verifyChoiceMatch#both-conditions", Describe: "unmarked matching choices are accepted"},
+	{ID: "verify-one-sided", Props: []string{"C20"}, Rule: "R-CRYPTO", File: "learn/pkg/learn/question.go", Find: "\t\tif !correctByIndex[i] && generated == output {\n", Replace: "\t\tif correctByIndex[i] && generated == output {\n", Expect: "verifyChoiceMatch#both-conditions", Describe: "unmarked matching choices are accepted"},
 }
 
 func init() {
